@@ -44,6 +44,12 @@ DIRNAMES = ['core', 'util', 'net', 'io', 'gfx', 'db', 'x1', 'x2', 'aa', 'zz']
 
 
 # (specifiers of one name always merge into a single one: Requires takes one)
+TOOLCHAINS = [
+    "install_dirs(prefix='/opt/tc', libdir='/opt/tc/lib64')\n"
+    "compile_options('-DTC=1', 'c')\n",
+    "environ['CPPFLAGS'] = environ.get('CPPFLAGS', '') + ' -DTC2'\n"
+    "install_dirs(bindir='/opt/tc bin')\nlink_options('-Wl,-O1')\n",
+]
 REQ_POOL = [('dep', '>=1.0'), ('dep', '>1.0'), ('dep', '>=0.5'),
             ('other', ''), ('zed', '<=2.1'), ('zed', '<2.1'), ('zed', '<3'),
             ('kap', '!=1.1'), ('mu', '==2.5'), ('mu', '>=2.5')]
@@ -72,6 +78,8 @@ def cases(draw):
             'mode': draw(st.sampled_from([['--enable-shared',
                                            '--enable-static'], []])),
             'seeds': seeds,
+            'toolchain': draw(st.sampled_from([None, None, TOOLCHAINS[0],
+                                               TOOLCHAINS[1]])),
             # requirement lists of the generated .pc file: one name may be
             # constrained from two places, conflicts may keep two bounds
             'requires': draw(st.lists(st.sampled_from(REQ_POOL), max_size=3,
@@ -214,6 +222,10 @@ def prop_determinism(rec):
             lbld = os.path.join(tmp, 'link', 'top', 'bld')
             opts = ['--backend=' + backend, '--no-resolve-packages',
                     '--prefix=/opt/c13', '--flavor=spicy'] + case['mode']
+            if case.get('toolchain'):
+                tcf = os.path.join(top, 'tc.bfg')
+                sandbox.write_file(tcf, case['toolchain'])
+                opts.append('--toolchain=' + tcf)
             bfg = sandbox.BFG
             k9 = os.path.join(sandbox.BFGBIN, '9k')
             runs = [
@@ -249,6 +261,26 @@ def prop_determinism(rec):
                                     .format(what, r.rc, r.err.strip()[-600:]),
                                     case)
                 results.append((what, collect(bld)))
+            # regenerating from the saved configuration: forced, then lazily
+            # after an input became newer (what the build file itself runs)
+            seeds = list(case['seeds'])
+            for what, args in (('regenerate', ['regenerate', bld]),
+                               ('regenerate --lazy',
+                                ['regenerate', '--lazy', bld])):
+                env = sandbox.base_env(os.path.join(tmp, 'home'),
+                                       extra={'PKG_CONFIG_PATH': depdir})
+                seeds.append(seeds[-1] // 2 + 17)
+                env['PYTHONHASHSEED'] = str(seeds[-1])
+                t = sandbox.Clock(tmp).tick(tmp)
+                for f in [os.path.join(src, 'build.bfg')] + (
+                        [tcf] if case.get('toolchain') else []):
+                    os.utime(f, ns=(t, t))
+                r = sandbox.run([bfg] + args, top, env)
+                if r.rc != 0:
+                    raise Violation('det/regenerate-failed', '{}: exit {}: {}'
+                                    .format(what, r.rc,
+                                            r.err.strip()[-600:]), case)
+                results.append((what, collect(bld)))
             base_what, (base_primary, base_aux) = results[0]
             for what, (primary, aux) in results[1:]:
                 if sorted(primary) != sorted(base_primary):
@@ -269,8 +301,8 @@ def prop_determinism(rec):
                             'det/' + fn.split('/')[0] + '-differs',
                             '{} differs between [{}] (PYTHONHASHSEED={}) and '
                             '[{}] (PYTHONHASHSEED={}):\n{}'.format(
-                                fn, base_what, case['seeds'][0], what,
-                                case['seeds'][results.index(
+                                fn, base_what, seeds[0], what,
+                                seeds[results.index(
                                     (what, (primary, aux)))], d[:1500]),
                             case)
                 for fn in base_aux:
